@@ -102,28 +102,28 @@ Fixpoint first_diff (i : nat) (ms : list out) (is : list iout) : option nat :=
   | _, _ => Some i
   end.
 
-Definition case_diff (extend_priv : bool) (c : acase) : option nat :=
-  let '(_, outs) := run extend_priv (init (c_seed c) (c_pass c)) (map fst (c_ops c)) in
+Definition case_diff (f : facts) (c : acase) : option nat :=
+  let '(_, outs) := run f (init (c_seed c) (c_pass c)) (map fst (c_ops c)) in
   first_diff 0 outs (map snd (c_ops c)).
 
-Definition case_ok (extend_priv : bool) (c : acase) : bool :=
-  match case_diff extend_priv c with None => true | Some _ => false end.
+Definition case_ok (f : facts) (c : acase) : bool :=
+  match case_diff f c with None => true | Some _ => false end.
 
-Fixpoint mismatches_from (extend_priv : bool) (i : nat) (l : list acase) : list nat :=
+Fixpoint mismatches_from (f : facts) (i : nat) (l : list acase) : list nat :=
   match l with
   | [] => []
-  | c :: l' => if case_ok extend_priv c then mismatches_from extend_priv (S i) l'
-               else i :: mismatches_from extend_priv (S i) l'
+  | c :: l' => if case_ok f c then mismatches_from f (S i) l'
+               else i :: mismatches_from f (S i) l'
   end.
 
-Definition mismatches (extend_priv : bool) := mismatches_from extend_priv 0.
+Definition mismatches (f : facts) := mismatches_from f 0.
 
 (** for diagnosis: (case index, operation index) of every first difference *)
-Fixpoint diffs_from (extend_priv : bool) (i : nat) (l : list acase) : list (nat * nat) :=
+Fixpoint diffs_from (f : facts) (i : nat) (l : list acase) : list (nat * nat) :=
   match l with
   | [] => []
-  | c :: l' => match case_diff extend_priv c with
-               | None => diffs_from extend_priv (S i) l'
-               | Some j => (i, j) :: diffs_from extend_priv (S i) l'
+  | c :: l' => match case_diff f c with
+               | None => diffs_from f (S i) l'
+               | Some j => (i, j) :: diffs_from f (S i) l'
                end
   end.
